@@ -3004,8 +3004,13 @@ class HasCTE(roles.HasCTERole, SelectsRows):
             :meth:`_expression.HasCTE.cte`.
 
         """  # noqa: E501
+        element = self
+        if isinstance(self, SelectBase):
+            # like subquery(): a SELECT embedded as a FROM element must not
+            # export two columns under one name (LABEL_STYLE_NONE)
+            element = self._ensure_disambiguated_names()
         return CTE._construct(
-            self, name=name, recursive=recursive, nesting=nesting
+            element, name=name, recursive=recursive, nesting=nesting
         )
 
 
